@@ -4,7 +4,7 @@ import itertools
 
 from pgverif import cfg
 
-LAYOUT_FILLERS = ["", " ", "  ", "\n", "\t ", " \n "]
+LAYOUT_FILLERS = ["", " ", "  ", "\n", "\t ", " \n ", "\r\n", "\r"]
 
 
 def grammar_stream(ctx, acyclic=False, overlap_share=0.25, tiny=False, eps_weights=(1, 1, 2, 3), corpus=True):
